@@ -2,7 +2,7 @@ SPECIFICATION Spec
 CONSTANTS
   MaxCap = 3
   Alphabet = {1, 2}
-  Types = {8, 32}
+  Types = {8, 32, 64}
 VIEW View
 INVARIANTS QueueRefinement Bounded ImplShape SizeEmptyFullAgree IterOldNewIsQueue IterNewOldIsReverse
 PROPERTIES GetOldest PutRule RefinesAbs
